@@ -101,7 +101,12 @@ class ValidateVariableNamesVisitor(Visitor.DefaultVisitor):
         with Errors.CompileExceptionToErrorHandler(
             self.errorHandler, self.__onError
         ):
-            ifStatement.AcceptVisitor(self, ctx)
+            self.v_Visit(ifStatement.GetCondition(), ctx)
+            # The two paths are disjoint scopes, whether they are braced
+            # or not
+            self.v_Visit(ifStatement.GetTruePath(), self.Context(ctx))
+            if ifStatement.HasElsePath():
+                self.v_Visit(ifStatement.GetElsePath(), self.Context(ctx))
 
     def v_VariableDeclaration(self, decl, ctx):
         ctx.Add(decl.GetName(), decl.GetLocation())
